@@ -411,7 +411,7 @@ def ps_own_deps(pid, wd, verdict, tr, rng):
     import atexit
     atexit.register(lambda: os.path.exists(exe) and os.remove(exe))
     # (the code's cross-check enumerates C(n,t) subsets at every party: the middle thresholds of large n are left to the thorough tier)
-    nts = [(3, 2), (5, 3), (8, 2), (8, 7), (12, 2), (12, 11)] if tr == "quick" else [(n, t) for n in (3, 5, 6, 7, 8, 10, 12, 16) for t in sorted({2, (n + 1) // 2, n - 1})] + [(18, 17)]
+    nts = [(3, 2), (5, 3), (8, 2), (8, 7), (12, 2), (12, 11)] if tr == "quick" else [(n, t) for n in (3, 5, 6, 7, 8, 10) for t in sorted({2, (n + 1) // 2, n - 1})] + [(12, 2), (12, 11), (16, 2), (16, 15), (18, 17)]
     cs = []
     for (n, t) in nts:
         for rep in range(2 if tr == "quick" else 4):
